@@ -23,6 +23,17 @@
 (***************************************************************************)
 EXTENDS Pipeline
 
+\* The transcription follows /repo at the commit the check was written against. Repairs of the defects
+\* this property found change five mechanisms; each is transcribed in both forms and selected here
+\* (checks/c04.py IMPL_FIXES), so that the model can follow the code when a repair is committed:
+\*   "unionDefault"  CheckUnions sets hasDefault
+\*   "getEnumCycle"  getEnum stops at a typedef it has already followed
+\*   "dupArgs"       CheckFunctions looks for repeated IDs / names in argument and throws lists
+\*   "argDefaults"   ResolveFunction resolves the default values of arguments and throws
+\*   "lateGen"       every -g entry (backend name, option values) is checked before anything is generated
+CONSTANT ImplFixes
+Fixed(x) == x \in ImplFixes
+
 RECURSIVE FirstFrom(_, _)
 FirstFrom(s, i) == IF i > Len(s) THEN "" ELSE IF s[i] # "" THEN s[i] ELSE FirstFrom(s, i + 1)
 First(s) == FirstFrom(s, 1)
@@ -80,12 +91,19 @@ BCheckEnums(F) ==
 \* only struct, union, exception: the argument and throws lists of functions are not looked at
 BCheckStructLikes(F) == \E i \in Idx(F.structs) : HasDup(FieldIds(F.structs[i].fields)) \/ HasDup(Names(F.structs[i].fields))
 \* `hasDefault` is declared and tested but never assigned: the "another default value" branch is dead
-BCheckUnions(F) == FALSE
+BCheckUnions(F) ==
+  /\ Fixed("unionDefault")
+  /\ \E i \in Idx(F.structs) :
+       F.structs[i].cat = "union" /\ Cardinality({k \in Idx(F.structs[i].fields) : F.structs[i].fields[k].hasDef}) > 1
 BCheckFunctions(F) ==
   \E i \in Idx(F.services) :
     \/ HasDup(Names(F.services[i].funcs))
     \/ \E j \in Idx(F.services[i].funcs) :
-         LET fn == F.services[i].funcs[j] IN fn.oneway /\ (~fn.void \/ Len(fn.throws) > 0)
+         LET fn == F.services[i].funcs[j] IN
+         \/ fn.oneway /\ (~fn.void \/ Len(fn.throws) > 0)
+         \/ /\ Fixed("dupArgs")
+            /\ \/ HasDup(FieldIds(fn.args)) \/ HasDup(Names(fn.args))
+               \/ HasDup(FieldIds(fn.throws)) \/ HasDup(Names(fn.throws))
 BCheckFile(F) == First(<<If(BCheckGlobals(F), "check.globals"), If(BCheckEnums(F), "check.enums"),
                          If(BCheckStructLikes(F), "check.structs"), If(BCheckUnions(F), "check.unions"),
                          If(BCheckFunctions(F), "check.functions")>>)
@@ -104,7 +122,7 @@ BGetEnum(P, f, name, fuel) ==
   LET F == FileOf(P, f) IN
   IF HasIn(F.enums, name) /\ ~HasIn(F.tds, name) THEN [r |-> "enum", h |-> f, i |-> FirstIn(F.enums, name)]
   ELSE IF ~HasIn(F.tds, name) THEN NilEnum
-  ELSE IF fuel = 0 THEN [r |-> "overflow", h |-> 0, i |-> 0]
+  ELSE IF fuel = 0 THEN (IF Fixed("getEnumCycle") THEN NilEnum ELSE [r |-> "overflow", h |-> 0, i |-> 0])
   ELSE LET t == F.tds[FirstIn(F.tds, name)].type IN
        IF t.n # "ref" THEN NilEnum
        ELSE IF t.q = "" THEN BGetEnum(P, f, t.name, fuel - 1)
@@ -155,9 +173,11 @@ BFieldsLabel(P, f, fs) ==
 \* ResolveFunction: return type, argument types, throws types - default values of arguments are
 \* never resolved
 BFuncLabel(P, f, fn) ==
-  First(<<IF fn.void THEN "" ELSE BTypeLabel(P, f, fn.ret)>>
-        \o [k \in Idx(fn.args) |-> BTypeLabel(P, f, fn.args[k].type)]
-        \o [k \in Idx(fn.throws) |-> BTypeLabel(P, f, fn.throws[k].type)])
+  IF Fixed("argDefaults")
+  THEN First(<<IF fn.void THEN "" ELSE BTypeLabel(P, f, fn.ret)>> \o <<BFieldsLabel(P, f, fn.args), BFieldsLabel(P, f, fn.throws)>>)
+  ELSE First(<<IF fn.void THEN "" ELSE BTypeLabel(P, f, fn.ret)>>
+             \o [k \in Idx(fn.args) |-> BTypeLabel(P, f, fn.args[k].type)]
+             \o [k \in Idx(fn.throws) |-> BTypeLabel(P, f, fn.throws[k].type)])
 BServiceLabel(P, f, s) ==
   First([k \in Idx(s.funcs) |-> BFuncLabel(P, f, s.funcs[k])]
         \o <<If(s.hasExt /\ ~IsServiceRef(P, f, s.ext), "resolve.base")>>)
@@ -180,12 +200,6 @@ BResolveFile(P, f) ==
 BResolve(P) == LET po == PostOrder(P) IN First([k \in Idx(po) |-> BResolveFile(P, po[k])])
 
 -----------------------------------------------------------------------------
-(* sdk: UsedPlugins, Targets (ParseCompactArguments), "No output language(s) specified" *)
-BTargets(C) ==
-  IF \E i \in Idx(C.langs) : C.langs[i].name = "" THEN "targets.parse"
-  ELSE IF Len(C.langs) = 0 THEN "targets.noLang" ELSE ""
-
------------------------------------------------------------------------------
 (* Generator.Generate for one -g entry *)
 \* HandleOptions: the actions in the order of the list, then validateOptions
 BOptionBad(o) ==
@@ -196,9 +210,17 @@ BOptionBad(o) ==
     [] OTHER -> o.v \notin BoolWords
 BOptions(l) == If((\E k \in Idx(l.opts) : BOptionBad(l.opts[k])) \/ OptConflict(l), "backend.options")
 
+(* sdk: UsedPlugins, Targets (ParseCompactArguments), "No output language(s) specified" *)
+BTargets(C) ==
+  IF \E i \in Idx(C.langs) : C.langs[i].name = "" THEN "targets.parse"
+  ELSE IF Fixed("lateGen") /\ \E i \in Idx(C.langs) : BOptions(C.langs[i]) # "" THEN "targets.options"
+  ELSE IF Len(C.langs) = 0 THEN "targets.noLang"
+  ELSE IF Fixed("lateGen") /\ \E i \in Idx(C.langs) : C.langs[i].name \notin Backends THEN "targets.lang"
+  ELSE ""
+
 \* Include.Used is set by ResolveSymbols when a type, a constant identifier (of a constant or of a
 \* struct-like field - not of an argument) or a base service of the file resolves into the include
-ResolvedIds(F) ==
+ResolvedIds(F) == IF Fixed("argDefaults") THEN ValueIds(F) ELSE
   UNION {Ids(F.consts[i].value) : i \in Idx(F.consts)} \cup
   UNION {FieldSeqIds(F.structs[i].fields) : i \in Idx(F.structs)}
 UsedInc(P, f, i) ==
@@ -266,7 +288,8 @@ BScopeFile(P, f) ==
         \o [k \in Idx(F.services) |->
               First([j \in 1..(2 * Len(F.services[k].funcs)) |->
                        LET fn == F.services[k].funcs[(j + 1) \div 2] IN
-                       IF j % 2 = 1 THEN BFieldsKind(P, f, fn.args, FALSE) ELSE BFieldsKind(P, f, fn.throws, FALSE)])]
+                       IF j % 2 = 1 THEN BFieldsKind(P, f, fn.args, Fixed("argDefaults"))
+                       ELSE BFieldsKind(P, f, fn.throws, Fixed("argDefaults"))])]
         \o [k \in Idx(F.consts) |-> BKind(P, f, F.consts[k].type, F.consts[k].value, TRUE)])
 BScopes(P, C) ==
   LET po == PostOrder(P)
@@ -311,11 +334,25 @@ BFail(label) ==
   /\ stage' = "done" /\ outcome' = BOutcome(label) /\ mech' = label
   /\ UNCHANGED <<filesWritten, li>>
 
-BStep(P, C) ==
+BStepL(label) ==
   /\ stage \notin {"persist", "done"}
-  /\ LET label == StageLabel(P, C) IN
-     IF label # "" THEN BFail(label)
+  /\ IF label # "" THEN BFail(label)
      ELSE stage' = NextStage(stage) /\ UNCHANGED <<outcome, filesWritten, li, mech>>
+BStep(P, C) == BStepL(StageLabel(P, C))
+
+\* the labels of the stages that do not depend on the command line, up to the first that fires
+PreStages == {"parse", "circle", "check", "resolve"}
+NoPre == [known |-> FALSE, parse |-> "", circle |-> "", check |-> "", resolve |-> ""]
+PreLabels(P) ==
+  LET c == [flagsOk |-> TRUE, idls |-> 1, idlExists |-> TRUE]
+      none == [known |-> TRUE, parse |-> "", circle |-> "", check |-> "", resolve |-> ""]
+      pa == BParse(P, c)
+  IN IF pa # "" THEN [none EXCEPT !.parse = pa]
+     ELSE LET ci == BCircle(P) IN
+          IF ci # "" THEN [none EXCEPT !.circle = ci]
+          ELSE LET ch == BCheck(P) IN
+               IF ch # "" THEN [none EXCEPT !.check = ch]
+               ELSE [none EXCEPT !.resolve = BResolve(P)]
 
 \* Persist of one -g entry; the loop of InvokeThriftgo then takes the next entry or returns nil (status 0)
 BPersist(P, C) ==
@@ -326,4 +363,8 @@ BPersist(P, C) ==
      ELSE stage' = "done" /\ outcome' = [exit |-> "zero", diag |-> FALSE, crash |-> FALSE] /\ mech' = "ok" /\ UNCHANGED li
 
 BNext(P, C) == BStep(P, C) \/ BPersist(P, C)
+\* the same with the command-line independent labels computed beforehand (pre.known)
+BNextPre(P, C, pre) ==
+  \/ BStepL(IF pre.known /\ stage \in PreStages THEN pre[stage] ELSE StageLabel(P, C))
+  \/ BPersist(P, C)
 =============================================================================
